@@ -2817,3 +2817,67 @@ package decimal128
 //@ ensures !(verb == 101 || verb == 69 || verb == 102 || verb == 70 || verb == 103 || verb == 71 || verb == 118) ==> tag(err) != 0
 //@ waive call-requires at "tmp, err := parseNumber(tok, neg, true)": the token comes from fmt.ScanState (external); parseNumber's value-level postconditions are not used here
 //@ props C05 C20
+
+// ---------------------------------------------------------------------------------------------
+// Binary floating point (C09, partial). A float64 is its IEEE 754 bit pattern b = fbits(f):
+// sign b >= 2^63, biased exponent FE = (b / 2^52) mod 2048, fraction FM = b mod 2^52. Decided here:
+// the class mapping (NaN, +-Inf, +-0) and the exact paths of FromFloat64: integers m x 2^k that fit
+// 256 bits and dyadic values that are integers are converted exactly and then rounded by reduce256.
+// The iterated div10 / shift paths for larger or fractional values are outside this contract.
+//@ func FromFloat64
+//@ returns (r)
+//@ logical V real
+//@ define B = fbits(f)
+//@ define FE = ((B / 4503599627370496) % 2048)
+//@ define FM = (B % 4503599627370496)
+//@ define FNEG = (B >= 9223372036854775808)
+//@ define MANT = ite(FE == 0, FM, FM + 4503599627370496)
+//@ define K = (ite(FE == 0, 0 - 1022, FE - 1023) - 52)
+//@ requires DefaultRoundingMode <= 5
+//@ requires FE != 2047 && MANT != 0 && K == 0 ==> V > 0 && rs(V, 6176) == real(MANT * pow2(K))
+//@ ensures FE == 2047 && FM != 0 ==> isnan(r) && !sign(r) && lo(r) == payloadOpFromFloat64
+//@ ensures FE == 2047 && FM == 0 ==> isinf(r) && sign(r) == FNEG && lo(r) == 0
+//@ ensures FE != 2047 && MANT == 0 ==> !special(r) && coef(r) == 0 && bexp(r) == 0 && sign(r) == FNEG
+//@ ensures FE != 2047 && MANT != 0 && K == 0 ==> sign(r) == FNEG && !isnan(r)
+//@ ensures FE != 2047 && MANT != 0 && K == 0 && isinf(r) ==> Ovf(DefaultRoundingMode, FNEG, rs(V, 12287))
+//@ ensures FE != 2047 && MANT != 0 && K == 0 && !special(r) ==> RndOK(DefaultRoundingMode, FNEG, rs(V, bexp(r)), coef(r), bexp(r))
+//@ limit before "var sig256 uint256"
+//@ props C09 C20
+
+//@ func FromFloat32
+//@ returns (r)
+//@ define B = fbits(f)
+//@ define FE = ((B / 8388608) % 256)
+//@ define FM = (B % 8388608)
+//@ define FNEG = (B >= 2147483648)
+//@ requires DefaultRoundingMode <= 5
+//@ ensures FE == 255 && FM != 0 ==> isnan(r) && !sign(r) && lo(r) == payloadOpFromFloat32
+//@ ensures FE == 255 && FM == 0 ==> isinf(r) && sign(r) == FNEG && lo(r) == 0
+//@ ensures FE == 0 && FM == 0 ==> !special(r) && coef(r) == 0 && bexp(r) == 0 && sign(r) == FNEG
+//@ waive call-requires at "return FromFloat64(float64(f))": the widened value is an unconstrained pattern of the same class; FromFloat64's exact-path postcondition is not used here
+//@ props C09 C20
+
+// Decimal.Float64 (C09, partial): class mapping and the two range shortcuts, each taken only when
+// the exact value is beyond the float64 range (at least 1e309) or rounds to zero (below 1e-324).
+//@ func Decimal.Float64
+//@ uses rsmono=0,1,35
+//@ returns (f)
+//@ logical V real
+//@ define RB = fbits(f)
+//@ requires !special(d) ==> V >= 0 && rs(V, bexp(d)) == coef(d)
+//@ ensures isnan(d) ==> (RB / 4503599627370496) % 2048 == 2047 && RB % 4503599627370496 != 0
+//@ ensures isinf(d) ==> RB == ite(sign(d), 0xfff0000000000000, 0x7ff0000000000000)
+//@ ensures !special(d) && coef(d) == 0 ==> RB == ite(sign(d), 0x8000000000000000, 0)
+//@ ensures !special(d) && coef(d) != 0 && bexp(d) < 6176 - 358 ==> RB == ite(sign(d), 0x8000000000000000, 0)
+//@ ensures !special(d) && coef(d) != 0 && bexp(d) > 6176 + 308 ==> RB == ite(sign(d), 0xfff0000000000000, 0x7ff0000000000000)
+//@ assert before "f := 0.0"#2: coef(d) != 0 && rs(V, 5852) < 1
+//@ assert before "return math.Inf(-1)"#2: rs(V, 6485) >= 1
+//@ assert before "return math.Inf(1)"#2: rs(V, 6485) >= 1
+//@ limit before "var sig256 uint256"
+//@ props C09 C20
+
+//@ func Decimal.Float32
+//@ returns (f)
+//@ logical V real
+//@ requires !special(d) ==> V >= 0 && rs(V, bexp(d)) == coef(d)
+//@ props C09 C20
